@@ -472,8 +472,12 @@ func (x *Exec) trIndex(e *Expr, env *Env) (Term, error) {
 	case *types.Map:
 		d, vv := x.heapMap(u)
 		st := env.state()
-		has := mkAnd(mkNot(app("=", xv.S, "0")), app("select", app("select", x.get(st, d).S, xv.S), idx.S))
-		return Term{S: mkIte(has, app("select", app("select", x.get(st, vv).S, xv.S), idx.S), x.ss.zero(u.Elem()).S), Sort: x.ss.sortOf(u.Elem()), T: u.Elem()}, nil
+		domSel := app("select", app("select", x.get(st, d).S, xv.S), idx.S)
+		valSel := app("select", app("select", x.get(st, vv).S, xv.S), idx.S)
+		env.recordPattern(idx.S, domSel)
+		env.recordPattern(idx.S, valSel)
+		has := mkAnd(mkNot(app("=", xv.S, "0")), domSel)
+		return Term{S: mkIte(has, valSel, x.ss.zero(u.Elem()).S), Sort: x.ss.sortOf(u.Elem()), T: u.Elem()}, nil
 	}
 	return Term{}, fmt.Errorf("cannot index %s", typeKeyShort(xv.T))
 }
@@ -747,7 +751,9 @@ func (x *Exec) trCall(e *Expr, env *Env) (Term, error) {
 				return Term{}, fmt.Errorf("has: first argument is not a map")
 			}
 			d, _ := x.heapMap(mt)
-			return tBool(mkAnd(mkNot(app("=", args[0].S, "0")), app("select", app("select", x.get(env.state(), d).S, args[0].S), args[1].S))), nil
+			domSel := app("select", app("select", x.get(env.state(), d).S, args[0].S), args[1].S)
+			env.recordPattern(args[1].S, domSel)
+			return tBool(mkAnd(mkNot(app("=", args[0].S, "0")), domSel)), nil
 		case "visited":
 			// visited(k): key k already produced by the map range of the current loop
 			args, err := trArgs()
@@ -758,6 +764,7 @@ func (x *Exec) trCall(e *Expr, env *Env) (Term, error) {
 			if err != nil || !ok {
 				return Term{}, fmt.Errorf("visited() used outside a map-range loop")
 			}
+			env.recordPattern(args[0].S, app("select", t.S, args[0].S))
 			return tBool(app("select", t.S, args[0].S)), nil
 		case "min", "max", "abs":
 			args, err := trArgs()
